@@ -2,11 +2,10 @@ package main
 
 import (
 	"fmt"
-	"net/http/httptest"
 	"strings"
 	"sync"
-
-	"github.com/maruel/panicparse/v2/stack/webstack"
+	"sync/atomic"
+	"time"
 
 	"verifharness/core"
 )
@@ -28,10 +27,23 @@ func c14Web(r *core.Run) {
 	go c14WebPark("hello", started, stop)
 	<-started
 	defer close(stop)
+	var blocked atomic.Bool
 	get := func(q string) (int, string) {
-		rec := httptest.NewRecorder()
-		webstack.SnapshotHandler(rec, httptest.NewRequest("GET", "/debug/panicparse?"+q, nil))
-		return rec.Code, rec.Body.String()
+		if blocked.Load() {
+			return 0, ""
+		}
+		code, body, verdict, st := callHandler("/debug/panicparse?"+q, 3*time.Minute)
+		switch verdict {
+		case "blocked":
+			if !blocked.Swap(true) {
+				r.Violation("web-handler-blocked", "?"+q+" gets no answer: a handler goroutine is parked inside the library:\n"+st, "conc", map[string]any{"query": q})
+			}
+		case "slow":
+			if !blocked.Swap(true) {
+				r.Inconclusive("web phase: the handler watchdog fired while the handler was still running")
+			}
+		}
+		return code, body
 	}
 	// typed(page): the parked frame shows its string argument in typed form
 	typed := func(page string) bool {
@@ -40,6 +52,9 @@ func c14Web(r *core.Run) {
 	}
 	code, page := get("augment=1")
 	r.Eval(1)
+	if blocked.Load() {
+		return
+	}
 	if code != 200 || !strings.Contains(page, "c14WebPark") {
 		r.Broken(fmt.Sprintf("web phase: the parked goroutine is not on the page (status %d)", code))
 		return
@@ -52,6 +67,9 @@ func c14Web(r *core.Run) {
 	for i, q := range seq {
 		code, page := get(q)
 		r.Eval(1)
+		if blocked.Load() {
+			return
+		}
 		want := !strings.Contains(q, "augment=0")
 		if code != 200 || typed(page) != want {
 			r.Violation("web-request-depends-on-earlier-requests", fmt.Sprintf("request %d (?%s) of the sequence %q: status %d, typed arguments shown=%v, its own parameters ask for %v", i, q, seq, code, typed(page), want), "conc", map[string]any{"seq": seq, "i": i})
@@ -68,6 +86,9 @@ func c14Web(r *core.Run) {
 			for k := 0; k < r.N(6, 40); k++ {
 				q := []string{"augment=0", "augment=1", "", "augment=0&similarity=anypointer"}[(w+k)%4]
 				code, page := get(q)
+				if blocked.Load() {
+					return
+				}
 				want := !strings.Contains(q, "augment=0")
 				if code != 200 || typed(page) != want {
 					mu.Lock()
